@@ -210,6 +210,7 @@ type producer struct {
 	everK   map[util.Uint160]bool
 	txLog   []util.Uint256 // every transaction hash put on chain
 	dropped map[string]int
+	vcache  map[[2]byte]*kContract
 }
 
 func newProducer(n *Node) *producer {
